@@ -663,6 +663,9 @@ func c15Gen(r *kit.Rng) *c15Scenario {
 		schema.AddAnydata(r, s)
 	}
 	o := model.GenOpts{Nasty: true, EmptyLL: true, MaxEntries: []int{2, 10, 25}[size], Density: []int{45, 75, 95}[size], KeyPool: 40}
+	// swarm knob: key strings with commas in them, so that different compound keys
+	// read alike wherever a key is handled as its parts joined by commas
+	o.CommaKeys = r.Chance(1, 4)
 	t := model.Random(r, s, o.WithBudget([]int{60, 600, 1500}[size]), 0)
 	// the swarm knob must bite: a "large" document that came out small (an absent
 	// container near the top prunes everything below it) is drawn again
@@ -672,6 +675,16 @@ func c15Gen(r *kit.Rng) *c15Scenario {
 	sc := &c15Scenario{Schema: s, Tree: t, FailAt: -1,
 		Pretty: r.Chance(1, 2), EnumIds: r.Chance(1, 2), Qualify: r.Chance(1, 2), Insert: r.Chance(1, 2)}
 	paths := t.AllPaths()
+	if o.CommaKeys {
+		// the start selection is found by a path string, which cannot spell such a key
+		var plain []model.Path
+		for _, p := range paths {
+			if !strings.Contains(p.String(), ",") {
+				plain = append(plain, p)
+			}
+		}
+		paths = plain
+	}
 	if len(paths) > 0 && r.Chance([]int{6, 1, 1}[size], 8) {
 		sc.At = paths[r.Intn(len(paths))]
 		// a start selection held by a case: its schema parent is not its data parent
